@@ -85,8 +85,13 @@ def gen_params(rng, kind, mode):
     return p
 
 
-def next_query(rng, t, last_answer, scale_hint, hist):
+def next_query(rng, t, last_answer, scale_hint, hist, later_entries=()):
     """adaptive adversary: a query >= t"""
+    if later_entries and rng.random() < 0.25:
+        # fixed schedules: jump over some entries and land exactly on / one ulp around a later entry
+        e = rng.choice(list(later_entries))
+        hist("query", "on-later-entry")
+        return max(t, rng.choice([e, e, float(np.nextafter(e, np.inf)), float(np.nextafter(e, -np.inf))]))
     r = rng.random()
     a = last_answer
     if a is None or math.isinf(a) or a < t:
@@ -124,7 +129,8 @@ def real_run(kind, p, t0, n_queries, rng, hist, via_parse=False, use_copy=False,
                   "fixed": (sum(abs(x) for x in p.get("interrupts", [])) / max(1, len(p.get("interrupts", []))) or 1.0) if kind == "fixed" else 1.0, "geometric": p.get("scale")}[kind]
     if queries is None:
         for _ in range(n_queries):
-            tq = next_query(rng, t, answers[-1], scale_hint, hist)
+            later = [x for x in p.get("interrupts", []) if x >= t] if kind == "fixed" else ()
+            tq = next_query(rng, t, answers[-1], scale_hint, hist, later)
             if kind == "geometric" and tq > 0 and math.log(tq / p["scale"]) > 400 * math.log(p["factor"]):
                 tq = t
             if kind == "geometric" and tq > 1e15:
